@@ -514,7 +514,7 @@ def leaf3(cfg):
 
 # ---------------------------------------------------------------------------------------------------------------- ROOT-1
 def root1(cfg):
-    res = RuleResult('ROOT-1', 'empty() answers "the root pointer is null" in db and olc_db, and mutex_db::empty() forwards to it under the mutex (clear() resetting the root after deleting the subtree is ACC-4; insert into an empty tree / removal of the last leaf storing the root are NOEFF-1 effects)')
+    res = RuleResult('ROOT-1', 'empty() answers "the root pointer is null" in db and olc_db, and mutex_db::empty() forwards to it under the mutex ; clear() stores null into the root on every path to its exit (that the subtree is deleted completely is ACC-4 of C10; insert into an empty tree / removal of the last leaf storing the root are NOEFF-1 effects)')
     for f in index_fns(cfg, ('empty',)):
         res.count('empty() functions')
         res.functions.add(f.sig)
@@ -535,7 +535,31 @@ def root1(cfg):
         res.ob(verdict, {'rule': 'ROOT-1', 'function': flavor(f) + ' empty', 'site': fileline(f.loc), 'expr': xsig(f, rets[0]['e'])[:80], 'verdict': 'discharged' if verdict else 'VIOLATION'})
         if not verdict:
             res.find(f, f.loc, '%s empty() does not answer "root == nullptr": %s' % (flavor(f), xsig(f, rets[0]['e'])[:80]), key='ROOT-1:empty', config=cfg.name)
+    from ..engine import dominators
+    for f in index_fns(cfg, ('clear',)):
+        res.count('clear() functions')
+        res.functions.add(f.sig)
+        if f.cls.startswith('unodb::mutex_db<'):
+            ok = any(e.get('k') == 'call' and e.get('name') == 'clear' and (e.get('cls') or '').startswith('unodb::db<') for b, i, e in f.elements())
+            res.ob(ok, {'rule': 'ROOT-1', 'function': flavor(f) + ' clear', 'site': fileline(f.loc), 'verdict': 'forwards to db::clear' if ok else 'VIOLATION'})
+            if not ok:
+                res.find(f, f.loc, '%s clear() does not forward to db::clear()' % flavor(f), key='ROOT-1:clear', config=cfg.name)
+            continue
+        dom = dominators(f)
+        stores = []
+        for b, i, e in f.elements():
+            if e.get('k') == 'call' and e.get('ck') == 'op' and e.get('op') == '=' and len(e.get('args', [])) == 2 and _is_root_member(f, e['args'][0]):
+                r = f.strip_casts(e['args'][1])
+                while isinstance(r, dict) and r.get('k') == 'call' and r.get('ck') == 'ctor' and len(r.get('args', [])) == 1:
+                    r = f.strip_casts(r['args'][0])
+                stores.append((b, isinstance(r, dict) and r.get('k') == 'nullptr'))
+        exit_doms = dom.get(f.exit, set()) if f.exit in f.blocks else set()
+        ok = any(isnull and b in exit_doms for b, isnull in stores) and all(isnull for b, isnull in stores)
+        res.ob(ok, {'rule': 'ROOT-1', 'function': flavor(f) + ' clear', 'site': fileline(f.loc), 'root_stores': len(stores), 'verdict': 'root = nullptr on every path' if ok else 'VIOLATION'})
+        if not ok:
+            res.find(f, f.loc, '%s clear() does not store null into the root on every path: the index would still report entries (dangling, since the subtree was deleted) after clear()' % flavor(f), key='ROOT-1:clear', config=cfg.name)
     res.floor('empty() functions', 6)
+    res.floor('clear() functions', 6)
     return res
 
 
@@ -690,3 +714,142 @@ def split1(cfg):
     res.floor('prefix-split initialisers', 4)
     res.floor('collapse sites', 4)
     return res
+
+
+# ---------------------------------------------------------------------------------------------------------------- PAIR-1
+_DENSE = re.compile(r'^unodb::detail::basic_inode_(4|16)<')
+
+
+def _arr_kind(sig):
+    k = 'keys.byte_array' in sig
+    c = re.search(r'(this|p\d+)\.children\b', sig) is not None
+    if k and not c:
+        return 'K'
+    if c and not k:
+        return 'C'
+    if k and c:
+        return 'KC'
+    return None
+
+
+def _abstract(sig):
+    s = re.sub(r'\b(this|p\d+)\.keys\.byte_array\b', r'\1.ARR', sig)
+    s = re.sub(r'\b(this|p\d+)\.children\b', r'\1.ARR', s)
+    s = s.replace('cbegin', 'begin').replace('cend', 'end')
+    return s
+
+
+def _inits_stable(f):
+    """initialisers of locals that are not reassigned scalars: constants, references, pointers / iterators"""
+    m = {}
+    for b, i, e in f.elements():
+        if e.get('k') == 'decl':
+            for v in e['vars']:
+                t = v.get('t') or ''
+                if 'init' in v and (t.startswith('const ') or t.endswith('const') or '*' in t or '&' in t):
+                    m[v['did']] = v['init']
+    return m
+
+
+def pair1(cfg):
+    res = RuleResult('PAIR-1', 'the dense node classes (I4, I16) keep key bytes and child pointers in two parallel arrays; every function that writes one writes the other in lock-step: in each basic block the sequence of writes into keys (element stores, range copies, iterator stores and iterator steps) equals, after renaming the array, the sequence of writes into children - same target index, same source index - so slot i of keys always describes slot i of children')
+    for f in cfg.functions:
+        if not f.blocks or not _DENSE.match(f.cls):
+            continue
+        inits = _inits_stable(f)
+        touched = False
+        bad = None
+        nwrites = 0
+        # straight-line regions: a block and the continuation after an assertion (debug configurations) are one region
+        group = {b: b for b in f.blocks}
+
+        def find(x):
+            while group[x] != x:
+                group[x] = group[group[x]]
+                x = group[x]
+            return x
+        nr = f._noreturn_blocks()
+        for b, blk in f.blocks.items():
+            c = f.resolve(blk['cond']) if blk.get('cond') is not None else None
+            if isinstance(c, dict) and is_assert_elem(c):
+                for s_ in f.succs(b):
+                    if s_ is not None and s_ not in nr:
+                        group[find(s_)] = find(b)
+        preds = f.preds()
+        for b in f.blocks:
+            live = [s_ for s_ in f.succs(b) if s_ is not None and s_ not in nr]
+            if len(live) == 1 and len([p_ for p_ in preds.get(live[0], []) if p_ not in nr]) == 1:
+                group[find(live[0])] = find(b)      # straight-line chain (incl. the do { } while (0) of the assertion macros)
+        regions = {}
+        for b in sorted(f.blocks, reverse=True):
+            regions.setdefault(find(b), []).append(b)
+        for rb in sorted(regions, reverse=True):
+          evK, evC = [], []
+          for b in regions[rb]:
+            for e in f.blocks[b]['elems']:
+                if is_assert_elem(e):
+                    continue
+                k = e.get('k')
+                tgt = src = None
+                kind = None
+                if k == 'call' and e.get('ck') == 'op' and e.get('op') == '=' and len(e.get('args', [])) == 2:
+                    tgt, src = e['args']
+                elif k == 'binop' and e.get('op') == '=':
+                    tgt, src = e['l'], e['r']
+                if tgt is not None:
+                    ts = xsig(f, tgt, inits)
+                    kind = _arr_kind(ts)
+                    if kind in ('K', 'C') and ts not in ('this.children', 'this.keys.byte_array'):
+                        ss = xsig(f, src, inits)
+                        sk = _arr_kind(ss)
+                        # a source in a sparse class (I48: pointer_array / child_indexes) has no parallel key array: plain value
+                        ev = ('store', _abstract(ts), _abstract(ss) if (sk == kind and 'pointer_array' not in ss and 'child_indexes' not in ss) else 'VALUE')
+                        (evK if kind == 'K' else evC).append((ev, e.get('loc')))
+                        continue
+                if k == 'call' and e.get('name') in ('copy', 'copy_backward', 'copy_n', 'move', 'move_backward', 'memcpy', 'memmove', 'fill', 'fill_n', 'uninitialized_copy') and e.get('args') and (e.get('callee') or '').startswith(('std::', 'mem')):
+                    sigs = [xsig(f, a, inits) for a in e['args']]
+                    kinds = {_arr_kind(s) for s in sigs} - {None}
+                    if kinds and kinds <= {'K', 'C'} and len(kinds) == 1:
+                        kind = kinds.pop()
+                        ev = ('range', e.get('name'), tuple(_abstract(s) for s in sigs))
+                        (evK if kind == 'K' else evC).append((ev, e.get('loc')))
+                    elif kinds:
+                        bad = (e.get('loc'), 'a range operation mixes the key and the child array: %s(%s)' % (e.get('name'), ', '.join(sigs)))
+                    continue
+                if k == 'unop' and e.get('op') in ('++', '--'):
+                    r = f.ref_of(e['sub'])
+                    if r and r[0] in inits:
+                        s0 = xsig(f, inits[r[0]], inits)
+                        kind = _arr_kind(s0)
+                        if kind in ('K', 'C'):
+                            ev = ('step', e.get('op'), _abstract(s0))
+                            # steps that are part of a store expression are already in its signature; count all, both sides alike
+                            (evK if kind == 'K' else evC).append((ev, e.get('loc')))
+          if evK or evC:
+                touched = True
+                nwrites += len(evK) + len(evC)
+                if [x[0] for x in evK] != [x[0] for x in evC] and bad is None:
+                    onlyK = [x for x in evK if x[0] not in [y[0] for y in evC]]
+                    onlyC = [x for x in evC if x[0] not in [y[0] for y in evK]]
+                    w = (onlyK or onlyC or evK or evC)[0]
+                    bad = (w[1], 'keys: %s / children: %s' % ([_ev(x[0]) for x in evK], [_ev(x[0]) for x in evC]))
+        if not touched:
+            continue
+        res.count('functions writing the parallel arrays')
+        res.functions.add(f.sig)
+        flavor_ = 'olc' if 'olc_db' in f.cls else 'db'
+        n = _DENSE.match(f.cls).group(1)
+        ok = bad is None
+        res.ob(ok, {'rule': 'PAIR-1', 'function': 'I%s::%s (%s)' % (n, f.short, flavor_), 'site': fileline(f.loc), 'paired_writes': nwrites, 'verdict': 'discharged' if ok else 'VIOLATION'})
+        if not ok:
+            res.find(f, bad[0], 'I%s::%s writes the key array and the child array out of step: %s - after it, some slot\'s key byte describes another slot\'s child, so lookups return the wrong entry' % (n, f.short, bad[1]), key='PAIR-1:I%s:%s' % (n, f.short), config=cfg.name)
+    res.floor('functions writing the parallel arrays', 28)
+    return res
+
+
+def _ev(ev):
+    if ev[0] == 'store':
+        return '%s <- %s' % (ev[1], ev[2])
+    if ev[0] == 'range':
+        return '%s(%s)' % (ev[1], ', '.join(ev[2]))
+    return '%s %s' % (ev[1], ev[2])
